@@ -232,7 +232,7 @@ COMMENT_ONLY = {'kthlist': 'c nothing here\nc at all\n', 'gml': '# nothing\n',
 BINARY = b'\xff\xfe\x00\x9f p cnf \xc3\x28 1 2\n'
 GARBAGE = 'this is ( not a graph ]] 1 : : 0\n{ -- -> e 1 x\np\n'
 FILE_KINDS = ['missing', 'empty', 'comments', 'trunc', 'garbage', 'valid',
-              'dir', 'unread', 'binary', 'airy', 'crlf']
+              'dir', 'unread', 'binary', 'airy', 'crlf', 'novertices']
 STDIN_KINDS = ['empty', 'comments', 'trunc', 'garbage', 'valid', 'binary', 'airy', 'crlf',
                'percent', 'latex']
 # a file in another of the tools' own output formats given where DIMACS / a
@@ -259,6 +259,15 @@ def _content(kind, valid, ext):
         return GARBAGE
     if kind == 'valid':
         return valid
+    if kind == 'novertices':
+        # a legal description of the graph without vertices (seeded change
+        # C18-s24: `tseitin first <such a file>`); accepted or refused, the
+        # tools must end cleanly
+        directed = 'digraph' in valid or 'directed 1' in valid
+        return {'kthlist': '0\n', 'dimacs': 'p edge 0 0\n', 'matrix': '0 0\n',
+                'gml': 'graph [\n%s]\n' % ('  directed 1\n' if directed else ''),
+                'dot': 'strict %s {\n}\n' % ('digraph' if directed else 'graph'),
+                'cnf': 'p cnf 0 0\n'}.get(ext, '')
     if kind == 'percent':
         return PERCENT + valid
     if kind == 'latex':
@@ -972,11 +981,18 @@ def gen_files(tier, F):
         for f in fmts[gt]:
             if (gt, f) not in GRAPH_VALID:
                 continue
-            for kind in ('valid', 'empty', 'dir', 'trunc'):
+            for kind in ('valid', 'empty', 'dir', 'trunc', 'novertices'):
                 # failures of the reader are keyed on the reader, failures
                 # of the family on the exception site (see judge)
                 yield case(fam, 'cnfgen', 'graphfile:' + gt, [], [name] + pre +
                            [f, '{FX}/%s_%s.%s' % (gt, kind, f)])
+            if any(k[0] == 'star' for k in d['pos']):
+                for pre2 in COMPOSITE_PREFIX.get(name, [[]])[1:]:
+                    for tool in ('cnfgen', 'pbgen'):
+                        yield case(fam, tool, 'graphfile:' + gt, [], [name] + pre2 +
+                                   [f, '{FX}/%s_novertices.%s' % (gt, f)])
+            yield case(fam, 'pbgen', 'graphfile:' + gt, [], [name] + pre +
+                       [f, '{FX}/%s_novertices.%s' % (gt, f)])
 
 
 def gen_transformations(tier, T):
